@@ -29,8 +29,8 @@ const (
 )
 
 func init() {
-	register("C15", "other", "T6 WhoMayCall, T2 Dominates, T5 ExactlyOneOf, T4 GuardedBy with the linear normaliser, T16b SiblingAgreement (acquire/release metric), T3 PostDominates (error exits)",
-		"Decides the structural conditions of the event processor's release/semaphore contract: the Released callback handed to the ordering buffer and the one process() calls are the same closure made in New, which releases dag.Metric{1, size of that event} exactly once on every path and forwards to the nil-guarded user callback saved before the overwrite; nobody else in the package releases or acquires; Enqueue acquires the Metric() of the very batch its tasks iterate, and Events.Metric is len / sum of e.Size(), i.e. the per-event release amounts add up to the acquired amount; every path of process() does exactly one of Released(event) / buffer.PushEvent(event); PushEvent is reached only for a passing check and only when NOT(Lamport > HighestLamport()+1+EventsBufferLimit.Num) (normalised), the other edge releases with an error; worker tasks are enqueued only after a successful Acquire and every exit of Enqueue on which a task was not enqueued gives the acquired amount back; Stop closes quit, terminates the semaphore and waits for the workers before it clears the buffer. NOT decided: the order in which an ordered batch reaches the buffer (index arithmetic over a runtime slice), the numeric balance of the semaphore over a history (needs the runtime amounts), and what happens to batches in flight when quit is closed (the property excludes them).",
+	register("C15", "other", "T6 WhoMayCall, T2 Dominates, T5 ExactlyOneOf, T4 GuardedBy with the linear normaliser, T16b SiblingAgreement (acquire/release metric), T3 PostDominates (error exits), T20 CounterInvariant (forward data flow of index - call count)",
+		"Decides the structural conditions of the event processor's release/semaphore contract: the Released callback handed to the ordering buffer and the one process() calls are the same closure made in New, which releases dag.Metric{1, size of that event} exactly once on every path and forwards to the nil-guarded user callback saved before the overwrite; nobody else in the package releases or acquires; Enqueue acquires the Metric() of the very batch its tasks iterate, and Events.Metric is len / sum of e.Size(), i.e. the per-event release amounts add up to the acquired amount; every path of process() does exactly one of Released(event) / buffer.PushEvent(event); PushEvent is reached only for a passing check and only when NOT(Lamport > HighestLamport()+1+EventsBufferLimit.Num) (normalised), the other edge releases with an error; worker tasks are enqueued only after a successful Acquire and every exit of Enqueue on which a task was not enqueued gives the acquired amount back; Stop closes quit, terminates the semaphore and waits for the workers before it clears the buffer; batch order (C15.order): a check result carries its event's index in the batch, the ordered mode keeps a received result under its own pos, and at every process() call of the ordered mode the result handed on is the one at index N = number of process() calls the task has made so far (a linear invariant 'index - N = 0' established by a forward data-flow analysis over the task's CFG, independent of how the drain loop is written). NOT decided: the numeric balance of the semaphore over a history (needs the runtime amounts), and what happens to batches in flight when quit is closed (the property excludes them).",
 		[]string{"application callbacks are opaque", "the ordering buffer releases every pushed event exactly once (C14)", "DataSemaphore bookkeeping (C30)", "Lamport arithmetic does not wrap uint32"},
 		runC15)
 }
@@ -227,15 +227,20 @@ func c15TypeName(t types.Type) string {
 
 // c15IsEventSize: e is (a conversion of) <ev>.Size() through the dag.Event interface.
 func c15IsEventSize(f *core.FuncInfo, e ast.Expr, ev *types.Var) bool {
+	return ev != nil && c15IsSizeOf(f, e, func(x ast.Expr) bool { return varOf(f, c15Through(f, x)) == ev })
+}
+
+// c15IsSizeOf: e is (a conversion of) <x>.Size() through the dag.Event interface, for an x accepted by isEv.
+func c15IsSizeOf(f *core.FuncInfo, e ast.Expr, isEv func(ast.Expr) bool) bool {
 	if e == nil {
 		return false
 	}
 	call := isCallTo(f, core.StripConv(f.Info(), c15Through(f, core.StripConv(f.Info(), e))), c15EvSize)
-	if call == nil || ev == nil {
+	if call == nil {
 		return false
 	}
 	sel, ok := ast.Unparen(call.Fun).(*ast.SelectorExpr)
-	return ok && varOf(f, c15Through(f, sel.X)) == ev
+	return ok && isEv(sel.X)
 }
 
 // c15SamePath: the expression is a field chain root.path with the given root variable and path.
@@ -585,40 +590,8 @@ func runC15(c *core.Ctx) {
 		}
 		// the checker task iterates the same batch and hands every element to CheckParentless, whose
 		// result record carries that element; the inserter hands the record's event to process()
-		var ranged, checkedEach, recOK bool
-		var elem *types.Var
-		for _, l := range enq.Lits() {
-			l.InspectOwn(func(n ast.Node) bool {
-				rs, ok := n.(*ast.RangeStmt)
-				if !ok || varOf(l, rs.X) != batch || rs.Value == nil {
-					return true
-				}
-				ranged = true
-				elem = varOf(l, rs.Value)
-				for _, cs := range l.CallsTo(c15Pkg + ".EventCallback.CheckParentless") {
-					if len(cs.Call.Args) != 2 || varOf(l, c15Through(l, cs.Call.Args[0])) != elem {
-						continue
-					}
-					// unconditional in the loop body
-					head, _ := l.LoopOf(rs)
-					if head != nil && len(head.Succs) == 2 {
-						_, skips := core.PathQuery{F: l, From: blockEntry(head.Succs[0]), Avoid: core.PointSet(cs.Pt), TargetExit: true}.Find()
-						checkedEach = !skips
-					}
-					if cb := litArg(l, cs.Call, 1); cb != nil {
-						cb.InspectOwn(func(m ast.Node) bool {
-							if flds, cl, ok := c15StructFields(cb, c15ExprOf(m)); ok && c15TypeName(cb.Info().Types[cl].Type) == c15Pkg+".checkRes" {
-								if varOf(cb, c15Through(cb, flds[c15Pkg+".checkRes.e"])) == elem && varOf(cb, flds[c15Pkg+".checkRes.err"]) == cb.Param(0) && cb.Param(0) != nil {
-									recOK = true
-								}
-							}
-							return true
-						})
-					}
-				}
-				return true
-			})
-		}
+		chk := c15FindChecker(enq, batch)
+		ranged, checkedEach, recOK := chk.ranged, chk.checkedEach, chk.recOK
 		c.Check(ranged && checkedEach && recOK, "every event of the acquired batch is checked and its result queued", "T16b SiblingAgreement", enq.Pos(),
 			"the checker task ranges over the same batch, calls CheckParentless for each element unconditionally and queues a result carrying that element and the check's error",
 			"the checker task does not hand every element of the acquired batch (with its own check result) on: an event acquired for is never processed or released")
@@ -673,20 +646,16 @@ func runC15(c *core.Ctx) {
 				if a.Tok != token.ADD_ASSIGN {
 					continue
 				}
-				loop, _ := enclosingLoop(mf, a.Stmt.Pos()).(*ast.RangeStmt)
-				if loop == nil || varOf(mf, loop.X) != recv || loop.Value == nil {
+				// an iteration over the whole receiver (range, or counted with recv[i]) adding the element's size
+				_, it := c10LoopAt(mf, a.Stmt.Pos())
+				if it == nil || it.Coll == nil || varOf(mf, it.Coll) != recv || !c10Forward(it) {
 					continue
 				}
-				if !c15IsEventSize(mf, a.RHS, varOf(mf, loop.Value)) {
+				if !c15IsSizeOf(mf, a.RHS, func(x ast.Expr) bool { return c10IsElem(mf, it, x) }) {
 					continue
 				}
-				_, complete := loopDone(mf, loop)
-				head, _ := mf.LoopOf(loop)
-				if !complete || head == nil || len(head.Succs) != 2 {
-					continue
-				}
-				_, skips := core.PathQuery{F: mf, From: blockEntry(head.Succs[0]), Avoid: core.PointSet(a.Pt), TargetExit: true}.Find()
-				if !skips && (acc == nil || acc == varOf(mf, root)) {
+				every, _ := it.EveryIterationPasses([]core.Point{a.Pt}, true)
+				if every && (acc == nil || acc == varOf(mf, root)) {
 					sizeOK = true
 					acc = varOf(mf, root)
 				}
@@ -979,6 +948,8 @@ func runC15(c *core.Ctx) {
 			c.Check(ok, "workers bound to Processor.wg and Processor.quit", "provenance", cs.Pos(), "workers.New(&f.wg, f.quit, …)", "a worker pool is not bound to the wait group / quit channel that Stop uses: Stop does not wait for it")
 		}
 	})
+
+	c15Order(c)
 }
 
 // c15IsSemField: e denotes the Processor.eventsSemaphore field.
